@@ -205,6 +205,28 @@ def make_machine(rec_cb, maxD, raise_bucket=None, minD=2, exports=False, test="h
             self.step({"op": "get_demoted"})
             self.step({"op": "export_fits", "via_mimas": via})
 
+        @precondition(lambda self: self.h.D >= 2)
+        @rule(pix=st.lists(st.integers(0, 2 ** 40), min_size=1, max_size=3), dd=st.sampled_from([1, 1, 2]),
+              query=st.sampled_from(["get_demoted", "sky_within", "none"]))
+        def raw_union(self, pix, dd, query):
+            """union(other, renorm=False) with non-overlapping pixels on a coarser level, straight after a query"""
+            if query == "get_demoted":
+                self.step({"op": "get_demoted"})
+            elif query == "sky_within":
+                self.step({"op": "sky_within", "picks": pix, "form": "degin"})
+            self.step({"op": "union_norenorm", "pix": pix, "depth": self.h.D - dd})
+
+        @precondition(lambda self: exports and self.h.D >= 2)
+        @rule(pix=st.lists(st.integers(0, 2 ** 40), min_size=1, max_size=3), dd=st.sampled_from([1, 1, 2]), via=st.booleans(),
+              query=st.sampled_from([True, True, False]))
+        def export_fits_after_raw_union(self, pix, dd, via, query):
+            """query (flattens the representation), then a union without renormalisation that puts pixels on a coarser level,
+            then the MOC export"""
+            if query:
+                self.step({"op": "get_demoted"})
+            self.step({"op": "union_norenorm", "pix": pix, "depth": self.h.D - dd})
+            self.step({"op": "export_fits", "via_mimas": via})
+
         @precondition(lambda self: exports)
         @rule(via=st.booleans())
         def export_reg(self, via):
